@@ -150,6 +150,11 @@ def search_wire(run):
             ans = driver([req])
             if ans and ans[0] == 'panic':
                 return {'model_panics_on': req, 'implementation_answer': t.get('impl')}
+            # the decoder model *is* the statement "an invalid payload yields an error": a payload the model rejects and the
+            # real decoder accepts (or panics on) is a concrete failing input
+            if t.get('model') == 'err' and t.get('impl') not in (None, 'err'):
+                return {'implementation_vs_specification': {'payload': req, 'real_crate': t.get('impl'), 'model': 'err'},
+                        'replay_cmd': 'harness/target-default/debug/vh ' + ' '.join(t.get('scenario', []))}
     for k in range(3):
         rc, cases, err = vh(['wire', '--mode', 'dec', '--seed', str(1000 + k), '--n', '3000'])
         bad = [c for c in cases if c.get('oracle')]
